@@ -4,7 +4,7 @@ From Coq Require Import List NArith Bool Lia.
 From Verif Require Import Common.Util Bft.Tree Bft.Model Bft.Quorum Bft.ProofsTally Bft.ProofsChain Bft.ProofsNode
   Bft.Safety Bft.ProofsWitness Bft.ProofsFinal Bft.ProofsMonotone Bft.ProofsCommit
   Bft.ProofsFind Bft.ProofsLive Bft.ProofsLive2 Bft.ProofsVote Bft.ProofsSuffix Bft.ProofsSafety
-  Bft.ProofsOrder Bft.ProofsTree2 Bft.ProofsCasts Bft.ProofsRun Bft.ProofsLink Bft.ProofsGap Bft.ProofsWitness2 Bft.SchedScore Bft.ProofsMonotone2 Bft.ProofsSync Bft.ProofsFork.
+  Bft.ProofsOrder Bft.ProofsTree2 Bft.ProofsCasts Bft.ProofsRun Bft.ProofsLink Bft.ProofsGap Bft.ProofsWitness2 Bft.SchedScore Bft.ProofsMonotone2 Bft.ProofsSync Bft.ProofsFork Bft.ProofsJustified.
 Import ListNotations.
 Open Scope N_scope.
 
@@ -96,12 +96,16 @@ Theorem finalized_moves_forward guard c r e b packing :
 Proof. exact (commit_block_finalized guard c r e b packing). Qed.
 
 (* 3b'. own proposals (proposeAndCommit has no Accepts test).  A proposal on a best block that descends from finalized keeps
-        finalized on its own ancestry and the new block descends from it.  Without that premise it does not (witness: three
-        Byzantine validators of four make two conflicting branches commit; the node finalizes 4S by import, its best block
-        stays on branch W, packing the store point 15W finalizes 8W, not a descendant of 4S).  The NUMBER of finalized never
-        decreases in any case (finalized_moves_forward).  So the single-node clause is proved for all histories of imports
-        and restarts, and for own proposals under the premise "best descends from finalized", which can only fail after
-        two conflicting branches have both committed. *)
+        finalized on its own ancestry and the new block descends from it (finalized_monotone_own_proposal).  Without that
+        premise it does not, and the premise is NOT an invariant of an honest node: single_node_monotonicity_refuted is a valid
+        run with ONE Byzantine validator of four (the F4 history until 18Y, then node 0 imports 10X, 11X - the import finalizes 4X
+        while its best block stays 18Y - and packs the store point 19Y itself, which finalizes 12Y) in which one honest node's
+        finalized checkpoint moves genesis -> 4X -> 12Y, 12Y conflicting with 4X.  Replayed on the real packer / scheduler /
+        consensus / engine (bftsim F4RealOwnProposal): known finding F17, a consequence of the F4 root cause (it needs two
+        conflicting committed branches).  own_proposal_off_finalized_branch_not_monotone is an older, smaller witness of the same
+        step with three Byzantine validators.  The NUMBER of finalized never decreases in any case (finalized_moves_forward).
+        So the single-node clause is proved for all histories of imports and restarts, proved for own proposals under the premise
+        "best descends from finalized", and REFUTED for own proposals without it, inside the property's quantifier (f < n/3). *)
 Theorem finalized_monotone_own_proposal c nd b : 0 < c_L c -> inv c nd -> fin_ok nd -> honest_ok c nd b = true ->
   known (n_repo nd) (b_id b) = false -> has_block (n_repo nd) (n_best nd) (e_fin (n_eng nd)) = true ->
   let nd' := fst (fst (propose true c nd b)) in
@@ -115,6 +119,16 @@ Theorem own_proposal_off_finalized_branch_not_monotone :
   e_fin (n_eng nd') = b_id (wb 8 2 false) /\ has_block (n_repo nd') (e_fin (n_eng nd')) (e_fin (n_eng pm_node)) = false /\
   has_block (n_repo pm_node) (n_best pm_node) (e_fin (n_eng pm_node)) = false.
 Proof. exact propose_not_monotone_witness. Qed.
+
+Theorem single_node_monotonicity_refuted :
+  valid_run_b true cfg4 [4] f4_world [gen] f17_run = true /\
+  (exists nd, nth_error (world_after cfg4 f4_world f17_prefix) 0 = Some nd /\
+              e_fin (n_eng nd) = b_id x4 /\ n_best nd = b_id y18 /\
+              has_block (n_repo nd) (n_best nd) (e_fin (n_eng nd)) = false /\ honest_ok cfg4 nd y19own = true) /\
+  (exists nd', nth_error (world_after cfg4 f4_world f17_run) 0 = Some nd' /\ e_fin (n_eng nd') = b_id y12 /\
+               has_block (n_repo nd') (e_fin (n_eng nd')) (b_id x4) = false) /\
+  conflict (seen_after [gen] f17_run) (b_id x4) (b_id y12) = true.
+Proof. exact f17_witness. Qed.
 
 Example finalized_monotone_example : (* the F1 tree: finalized moves genesis -> a4 along the import history *)
   monotone_from (b_id gen) (fin_trace cfg4 true (init_node gen 1) f1_blocks) /\
@@ -310,7 +324,10 @@ Theorem later_com_vote_sees_earlier_votes c g byz masters pre i b post nd : 0 < 
       exists cpx, cp_of c tree x = Some cpx /\ comparable tree cpx rb.
 Proof. intros HL Hg Hd Hn. exact (com_vote_link_run c HL g Hg byz masters Hd Hn pre i b post nd). Qed.
 
-(* 4d. two committed epochs in one valid run, fewer than a third Byzantine (vote-count mode), under the explicit premise
+(* 4d. TREE-LEVEL statements (about pairs (B, y) of the global tree, not about a node's e_fin: a node's finalized is such a y
+       whenever CommitBlock moved it during an IMPORT - commit_block_fin_spec, single step - but no run-level lemma ties every
+       element of all_fins to one, and after an own proposal off the finalized branch (F17) it need not be one).
+       Two committed epochs in one valid run, fewer than a third Byzantine (vote-count mode), under the explicit premise
        votes_visible_b (at every honest proposal, no own vote inside the quality window lies below the proposer's finalized
        number: the finalized filter of ShouldVote hides nothing the window would show).  B finalizing = committed store
        point of quality > 1; y = the checkpoint CommitBlock finalizes from B (first epoch of B's chain whose store point
@@ -430,6 +447,14 @@ Proof.
   destruct f4s_fins as [A B]. split; [exact A|]. split; [exact B | exact f4s_conflict].
 Qed.
 
+(* how the oracle's observed runs relate to the plain transition system of the theorems: `step` (what `run` / `run_f 0` iterate) is
+   the plain step followed by the two observation calls Justified() and ShouldVote(best) on the node that moved; these leave
+   repository, best block, finalized, quality records and master untouched (they may fill the one-entry cache and create the
+   votes record, which is why the observed and the plain run are not literally equal). *)
+Theorem observed_step_is_plain_step_on_core_state guard c w ev :
+  map core (fst (Verif.Bft.Model.step guard c w ev)) = map core (step_plain guard c w ev).
+Proof. exact (step_is_plain_step_then_observation guard c w ev). Qed.
+
 (* The FINALITY fork height.  The oracle runs `run_f F` (Bft/Model.v, second half): the engine and the node with
    forkConfig.FINALITY = F as the code uses it (zero state below F, no walk below F, first round counted from F / L, the
    checkpoint search starts at getCheckPoint(F), the node consults Select / CommitBlock / ShouldVote only at or after F);
@@ -456,6 +481,7 @@ Print Assumptions linear_liveness.
 Print Assumptions finalized_advances_at_store_point.
 Print Assumptions finalized_monotone_own_proposal.
 Print Assumptions own_proposal_off_finalized_branch_not_monotone.
+Print Assumptions single_node_monotonicity_refuted.
 Print Assumptions timely_honest_run_single_chain.
 Print Assumptions timely_honest_run_epochs_commit.
 Print Assumptions timely_honest_run_finality_advances.
@@ -473,3 +499,4 @@ Print Assumptions bft_safety_without_premise_refuted.
 Print Assumptions f4_run_outside_premise.
 Print Assumptions safety_fails_with_scheduler_scores.
 Print Assumptions oracle_run_at_finality_0_is_the_verified_model.
+Print Assumptions observed_step_is_plain_step_on_core_state.
